@@ -410,6 +410,8 @@ class Env:
                 raise Abort("reference to an unknown source", "C17", ref.get("src"))
             if src["kind"] != "text":
                 raise Unspecified("block injection of a DIP source")
+            if src.get("placeholder"):
+                raise Unspecified("a remote file injecting its own text")
             value, runit, rtype = src["text"], None, "str"
         else:
             sel = self.resolve(ref)
@@ -430,6 +432,7 @@ class Env:
         if value is None and (st.get("unit") is not None or st.get("dims")):
             raise Unspecified("injection of none with a unit or into an array host")
         unit = st.get("unit") if st.get("unit") is not None else runit
+        self.need_unit(unit)      # e.g. a custom unit of the remote source, unknown here
         path = self.register(st["indent"], st["name"])
         exists = path in self.nodes
         typ = self.nodes[path]["type"] if exists else st.get("type")
@@ -498,6 +501,7 @@ class Env:
                 host["modified"] = True
                 made.append(path)
                 continue
+            self.need_unit(rnode["unit"])    # a custom unit of the source, unknown here
             node = copy.deepcopy(rnode)
             node["path"] = path
             node["modified"] = False
@@ -527,7 +531,7 @@ class Env:
             sub.sources = {k: (dict(v, env=v["env"].copy()) if v["kind"] == "dip" else dict(v))
                            for k, v in self.sources.items()}
             # the remote parse already sees the name it is being registered under
-            sub.sources[name] = {"kind": "text", "text": ""}
+            sub.sources[name] = {"kind": "text", "text": "", "placeholder": True}
             try:
                 run_statements(sub, f["stmts"], files)
                 sub.validate()
